@@ -128,13 +128,12 @@ public:
               {
                 ++_threadCount;
                 context = &_threads.append();
+                // start the thread before the lock is released: a worker that has already terminated again must not be
+                // removed (and its slot reused) while its thread handle is still being stored
+                context->_pool = this;
+                if (!context->_thread.start(*context, &ThreadContext::proc))
+                  context->_terminated = true;
               }
-            }
-            if (context)
-            {
-              context->_pool = this;
-              if (!context->_thread.start(*context, &ThreadContext::proc))
-                context->_terminated = true;
             }
           }
         }
